@@ -1,10 +1,11 @@
 # C10 A refused call leaves the object unchanged (DESIGN.md section 4, C10)
 from .histcommon import *
-from . import c05
+from . import c05, c09
 ID = 'C10'
+HARNESSES = ['h_hist.cpp', 'h_c09.cpp']
 LEVEL = 'model_checking'
 BUDGET = {'quick': 290, 'thorough': 3300}
-BOUNDS = {'quick': 'every throwing call in all histories of depth 2 (56 operations incl. partly-invalid arguments: second of two new points/channels duplicate, untyped parameter into a new group, unnamed parameter, unknown group; 6 start states); full dump before = full dump after decided by z3 (payload symbolic); object printed, saved and reloaded afterwards',
+BOUNDS = {'quick': 'Parameter::set(data, dims) refused for inconsistent dimensions (every extent a free byte) on a parameter holding nothing / ints / strings / a locked float, for int, float and string data: the parameter must be unchanged; every throwing call in all histories of depth 2 (56 operations incl. partly-invalid arguments: second of two new points/channels duplicate, untyped parameter into a new group, unnamed parameter, unknown group; 6 start states); full dump before = full dump after decided by z3 (payload symbolic); object printed, saved and reloaded afterwards',
           'thorough': 'depth 3'}
 OUTSIDE = 'refusals not in the alphabet; histories deeper than the bound'
 ASSUMPTIONS = []
@@ -23,13 +24,29 @@ def per_step(k, before, call, after, st, sec):
         O.append(Obl('usable/save-reload', f.get('final.reload') != 1, 'after refused %s the object cannot be saved and reloaded (exception class %s)' % (name, f.get('final.class'))))
     return O
 
-def jobs(tier, seed): return hist_jobs(tier, seed, finish=2, dupdeclare=1)     # a duplicate declaration on a frame-less object is in the alphabet here: if it is refused it must change nothing
-def run_job(engine, job): return explore(engine, job, ID, per_step)
+def set_jobs(tier):
+    out = []
+    for type_ in (2, 4, -1):
+        for prior in (0, 1, 2, 3):                    # no value yet, ints, strings, locked float
+            for ndata, ndims in ((0, 1), (1, 1), (1, 2), (2, 1), (2, 2), (3, 3)) if tier == 'quick' else [(a, b) for a in range(5) for b in range(1, 5)]:
+                out.append({'entry': 'h_c09_set', 'harness': 'h_c09.cpp', 'name': 'refused-set', 'cfg': {'type': type_, 'ndata': ndata, 'ndims': ndims, 'slen': 2, 'prior': prior}})
+    return out
+
+def set_obligations(sec, job, st):
+    if dict(sec['call'])['outcome'] == 0: return []
+    B = c09.param_of(sec['before']); A = c09.param_of(sec['after'])
+    return c09.param_eq('unchanged', B, A, 'parameter after a refused set() (%d values of type %d, %d free dimensions, prior content kind %d)' % (job['cfg']['ndata'], job['cfg']['type'], job['cfg']['ndims'], job['cfg']['prior']))
+
+def jobs(tier, seed): return hist_jobs(tier, seed, finish=2, dupdeclare=1) + set_jobs(tier)     # a duplicate declaration on a frame-less object is in the alphabet here: if it is refused it must change nothing
+def run_job(engine, job):
+    if job['name'] == 'refused-set': return std_run(engine, job, set_obligations, 'c09.end', ID, 'refused-set')
+    return explore(engine, job, ID, per_step)
 
 def native_confirm(nat, v):
     out, sec = native_sections(nat, v['replay'])
     if out['rc'] != 0: return None
     locus = v['id'].split('/', 2)[-1].split('@')[0]
+    if v['job'].get('name') == 'refused-set': return any(o.bad is True and o.locus == locus for o in set_obligations(sec, v['job'], None))
     for k, (b, call, a) in enumerate(steps_of(sec)):
         for o in per_step(k, b, call, a, None, sec):
             if o.bad is True and o.locus == locus: return True
